@@ -52,6 +52,8 @@ def run(F, chk):
         effects.check_may_write(F, E1, b.path, {'lifecycle'}, what='the lifecycle stage')
         import c07
         c07.check_relabel(F, st, P3)
+        Q5 = chk.rule('Q5', 'inside the receive loop a message leaves the queue only when its lifecycle is known not to be buffered (is_empty / !contains / equal to a just confirmed id)')
+        check_queue_release(st, Q5)
 
 
 def check_queue_api(body, Q1):
@@ -208,3 +210,84 @@ def check_assigned(F, st, A1):
             A1.ok(sample={'function': name, 'lifecycle_store_or_new_sites': len(writes), 'must_write': True})
         else:
             A1.violation(('no-must-write', name), '%s can return without storing msg.lifecycle (or delegating to Lifecycle::new)' % name, where=lb.loc(None))
+
+
+# ---------------------------------------------------------------------------------------------
+# Q5: a queued message leaves the queue only when its lifecycle is known not to be buffered
+
+def check_queue_release(st, Q5):
+    """Every pop_front of the message queue inside the receive loop (the final flush after end-of-input publishes everything
+    first and is decided by C06 T3) must be justified by what is known at that point:
+      (a) buffered_lcs.is_empty()                         - nothing is unconfirmed, or
+      (b) !buffered_lcs.contains(<id of the front msg>)   - this message's lifecycle is confirmed, or
+      (c) <id of the front msg> == P  where every definition of the local P is the id of a lifecycle that was just removed
+          from buffered_lcs (defined behind an un-buffering) or a value for which (b) held when it was stored.
+    Otherwise a message of a still unconfirmed lifecycle is forwarded: after a later merge it carries an id that denotes no
+    lifecycle, and it is delivered before its lifecycle is published."""
+    body, cfg, E = st.body, st.cfg, st.E
+    Q5.fn(body.path)
+    pops = sorted(st.blocks_with('POP'))
+    removes = set(st.blocks_with('LCS_REMOVE'))
+    recvs = set(st.blocks_with('RECV_IN'))
+    loops = cfg.loops()
+    recv_loop = None
+    for hd, lb in loops.items():
+        if recvs & lb and (recv_loop is None or len(lb) > len(recv_loop)):
+            recv_loop = lb
+    Q5.floor('pop_front sites of the message queue', len(pops), 3)
+
+    def facts_at(bi):
+        out = []
+        for (c, truth, D) in guards.known(cfg, E, bi):
+            if isinstance(c, tuple) and c[0] == 'call':
+                out.append((c[1].split('::')[-1], show(c), truth))
+            elif isinstance(c, tuple) and c[0] == 'bin' and c[1] in ('Eq', 'Ne'):
+                out.append((c[1], c, truth))
+        return out
+
+    def not_buffered_known(bi):
+        for (kind, c, truth) in facts_at(bi):
+            if kind == 'is_empty' and 'HashSet' in c and truth is True:
+                return 'buffered_lcs.is_empty()'
+            if kind == 'contains' and 'HashSet' in c and truth is False:
+                return '!buffered_lcs.contains(..)'
+        return None
+
+    def local_justified(name):
+        ls = body.locals_named(name)
+        if len(ls) != 1:
+            return None
+        ds = cfg.defs.get(ls[0], [])
+        if not ds:
+            return None
+        for (bi, si, d) in ds:
+            if si == 'call':
+                return None
+            if not_buffered_known(bi):
+                continue
+            # defined behind an un-buffering of a lifecycle: some LCS_REMOVE block dominates the definition
+            if any(cfg.dominates(r, bi) for r in removes) and '.id' in show(E.rvalue(d.rv)):
+                continue
+            return None
+        return 'every definition of `%s` is the id of a lifecycle just removed from buffered_lcs or of a lifecycle tested as not buffered' % name
+
+    for p in pops:
+        if recv_loop is not None and p not in recv_loop:
+            continue     # final flush
+        Q5.sites += 1
+        why = not_buffered_known(p)
+        if why is None:
+            for (kind, c, truth) in facts_at(p):
+                if kind == 'Eq' and truth is True:
+                    for side in (c[2], c[3]):
+                        if isinstance(side, tuple) and side[0] == 'place' and len(side) == 2:
+                            j = local_justified(side[1])
+                            if j:
+                                why = j
+        if why:
+            Q5.ok(sample={'pop_at': body.loc(body.blocks[p].term.sp), 'justified_by': why})
+        else:
+            Q5.violation(('queue-release-unjustified', body.path, 'site%d' % pops.index(p)),
+                         'a message is taken out of the queue at %s (and forwarded) although nothing known there shows that its lifecycle is no longer buffered '
+                         '(no buffered_lcs.is_empty(), no !buffered_lcs.contains(id), no equality with the id of a just confirmed lifecycle)' % body.loc(body.blocks[p].term.sp),
+                         where=body.loc(body.blocks[p].term.sp))
